@@ -30,6 +30,11 @@ type vfCapCache struct {
 }
 
 func vfNewCapCache(n int) *vfCapCache { return &vfCapCache{inner: NewLRUSessionCache(n)} }
+
+// vfNewCapCachePtr: the same around an application-style cache that keeps the object it is given.
+func vfNewCapCachePtr() *vfCapCache {
+	return &vfCapCache{inner: &vfPtrCache{m: map[string]*SessionState{}}}
+}
 func (c *vfCapCache) Get(k string) (*SessionState, bool) { return c.inner.Get(k) }
 func (c *vfCapCache) Put(k string, s *SessionState) {
 	if s != nil {
@@ -91,6 +96,10 @@ type c04Case struct {
 	ShortRand bool `json:"shortrand,omitempty"`
 	// EmptyMsg: (datagram stack) an empty datagram is sent in front of every application write
 	EmptyMsg bool `json:"emptymsg,omitempty"`
+	// PtrCache: both sides keep sessions in an application-supplied cache that stores the object it is handed
+	PtrCache bool `json:"ptrcache,omitempty"`
+	// Twice (with Resumed): the session is resumed a second time (three connections)
+	Twice bool `json:"twice,omitempty"`
 }
 
 type c04Conv struct {
@@ -366,6 +375,9 @@ func c04Run(c c04Case) (sig, msg string, nontrivial bool) {
 	p := vfGetPKI()
 	ccfg, scfg := vfBaseConfigs(c.Suite, c.ClientAuth)
 	cc, sc := vfNewCapCache(8), vfNewCapCache(8)
+	if c.PtrCache {
+		cc, sc = vfNewCapCachePtr(), vfNewCapCachePtr()
+	}
 	ccfg.SessionCache, scfg.SessionCache = cc, sc
 	if c.ShortRand {
 		ccfg.Rand, scfg.Rand = iotest.OneByteReader(rand.Reader), iotest.OneByteReader(rand.Reader)
@@ -381,6 +393,9 @@ func c04Run(c c04Case) (sig, msg string, nontrivial bool) {
 	nconn := 1
 	if c.Resumed {
 		nconn = 2
+		if c.Twice {
+			nconn = 3
+		}
 	}
 	var prev *c04Conv
 	for conn := 0; conn < nconn; conn++ {
@@ -433,7 +448,7 @@ func c04Run(c c04Case) (sig, msg string, nontrivial bool) {
 		if r.CErr != nil || r.SErr != nil || r.CAct != nil || r.SAct != nil || r.Stalled {
 			return "honest-failed", fmt.Sprintf("connection %d: honest conversation failed: %v %v %v %v stalled=%v", conn, r.CErr, r.SErr, r.CAct, r.SAct, r.Stalled), false
 		}
-		resumed := conn == 1
+		resumed := conn >= 1
 		if r.CS.DidResume != resumed {
 			return "resume-flag", fmt.Sprintf("connection %d: DidResume=%v", conn, r.CS.DidResume), false
 		}
@@ -447,7 +462,7 @@ func c04Run(c c04Case) (sig, msg string, nontrivial bool) {
 }
 
 func TestVF_C04(t *testing.T) {
-	rec := vfRec("C04", "C04-keyschedule", "suite x full/resumed x client auth x (ECDHE: recorded pre-master or not) x per-direction lists of write sizes (0..40000 on the stream stack, 0..5000 on the datagram stack; sometimes 257..700 records in one direction) x randomness source that returns one byte per Read x (datagram stack) empty datagrams in front of the writes; oracle: independent PRF/key-block/record-protection derivation must reproduce the tapped conversation; non-trivial = completed with at least one protected application record in each direction; distinct = hash of the case")
+	rec := vfRec("C04", "C04-keyschedule", "suite x full / resumed / resumed twice x built-in or application-supplied (object-keeping) session caches x client auth x (ECDHE: recorded pre-master or not) x per-direction lists of write sizes (0..40000 on the stream stack, 0..5000 on the datagram stack; sometimes 257..700 records in one direction) x randomness source that returns one byte per Read x (datagram stack) empty datagrams in front of the writes; oracle: independent PRF/key-block/record-protection derivation must reproduce the tapped conversation; non-trivial = completed with at least one protected application record in each direction; distinct = hash of the case")
 	maxSz := 40000
 	if vfStack == "dtlcp" {
 		maxSz = 5000
@@ -456,6 +471,7 @@ func TestVF_C04(t *testing.T) {
 	vfRapid(t, rec, "conversations", vfN(240, 6000), func(t *rapid.T) {
 		c := c04Case{Suite: rapid.SampledFrom(vfSuites).Draw(t, "suite"), Resumed: rapid.Bool().Draw(t, "resumed"),
 			ClientAuth: rapid.Bool().Draw(t, "auth"), RecordKA: rapid.Bool().Draw(t, "recka"),
+			PtrCache: rapid.IntRange(0, 3).Draw(t, "ptrcache") == 0, Twice: rapid.Bool().Draw(t, "twice"),
 			ShortRand: rapid.IntRange(0, 4).Draw(t, "shortrand") == 0, EmptyMsg: vfStack == "dtlcp" && rapid.IntRange(0, 3).Draw(t, "emptymsg") == 0,
 			Up: rapid.SliceOfN(sizeGen, 1, 4).Draw(t, "up"), Down: rapid.SliceOfN(sizeGen, 1, 4).Draw(t, "down")}
 		// one case in eight sends more than 256 (and more than 65536/… is out of reach) records in one
